@@ -10,6 +10,7 @@ package main
 import (
 	"bufio"
 	"bytes"
+	"encoding/binary"
 	"encoding/json"
 	"errors"
 	"fmt"
@@ -171,6 +172,19 @@ var pools = map[string][]interface{}{
 // bigPools add a 70 kB string; used by the random drivers only.
 var bigString = long70k
 
+// noisyString: 70 kB that no codec can shrink (a page that holds it stays above 64 KiB under snappy and gzip as well); token 998
+var noisyString = func() string {
+	b := make([]byte, 70001)
+	x := uint64(0x9E3779B97F4A7C15)
+	for i := range b {
+		x ^= x << 13
+		x ^= x >> 7
+		x ^= x << 17
+		b[i] = byte(x >> 24)
+	}
+	return string(b)
+}()
+
 func poolVal(typ string, tok, poff int) interface{} {
 	p := pools[typ]
 	i := (tok + poff) % len(p)
@@ -219,6 +233,9 @@ func tokOfBits(typ string, bits uint64, bs []byte, poff int) int {
 		} else if b == bits {
 			return ((i-poff)%len(p) + len(p)) % len(p)
 		}
+	}
+	if typ == "string" && string(bs) == noisyString {
+		return 998
 	}
 	if typ == "string" && string(bs) == bigString {
 		return 999
@@ -293,6 +310,10 @@ func (c buildCtx) fillBase(v reflect.Value, a interface{}) {
 		tok := toInt(a)
 		if k == "string" && tok == 999 {
 			v.SetString(bigString)
+			return
+		}
+		if k == "string" && tok == 998 {
+			v.SetString(noisyString)
 			return
 		}
 		v.Set(reflect.ValueOf(poolVal(k, tok, c.poff)).Convert(t))
@@ -1459,6 +1480,158 @@ type bulkSpec struct {
 	Batches []int `json:"batches"`
 	// Trunc: afterwards every strict prefix of the (large) file is handed to the reader; the outcome is summarised in one event
 	Trunc bool `json:"trunc,omitempty"`
+	// Tail: instead of one workload, up to Tail small files are written in search of files whose last bytes, read as a footer
+	// length after the trailing bytes were cut off, lead back to the start of the footer (see tailSearch)
+	Tail int `json:"tail,omitempty"`
+}
+
+// tailSearch: the cuts inside the trailing length/magic.  A reader that trusts whatever it finds eight bytes before the end
+// accepts the prefix that lost its last j bytes when the four bytes at [len-j-8, len-j-4), read as a footer length, lead to the
+// start of the real footer again: LE32(file[len-j-8:len-j-4]) == N - j (N the footer length, j <= 8: the footer itself is still
+// complete).  Whether a file is like that depends on the footer the writer under test emits, so such files are searched for
+// (number of row groups, rows of the last row group and the size of the records varied); for every file found each of the last 12
+// prefixes is handed to the reader.  One TruncSweep event per file found (and one with n = 0 when none was).
+func tailSearch(c jobCase) {
+	ctx := buildCtx{poff: c.Poff}
+	gen := func(i int) *Rec {
+		rec := new(Rec)
+		ctx.fill(reflect.ValueOf(rec).Elem(), bulkAbstract(schemaRoot, i, 0))
+		return rec
+	}
+	searched, found := 0, 0
+	start := time.Now()
+	// k row groups: the first of 3+3*salt records (it moves every later chunk, and with that the sizes of the offsets in the footer),
+	// the last of r records, 3 records in the others
+	write := func(k, r, salt int) []byte {
+		snk := &sink{}
+		w, err := NewParquetWriter(snk, MaxPageSize(c.Page), codecOpt[c.Codec])
+		if err != nil {
+			return nil
+		}
+		i := salt
+		for g := 0; g < k; g++ {
+			n := 3
+			if g == 0 && k > 1 {
+				n = 3 + 3*salt
+			}
+			if g == k-1 {
+				n = r
+			}
+			for x := 0; x < n; x++ {
+				w.Add(*gen(i))
+				i++
+			}
+			if w.Write() != nil {
+				return nil
+			}
+		}
+		if w.Close() != nil {
+			return nil
+		}
+		return snk.buf
+	}
+	// tail(file): footer length, the value a reader of the file without its last 4 bytes would take for it, and the cut (if any)
+	// that leads back to the start of the footer
+	tail := func(file []byte) (N, v, hit int) {
+		n := len(file)
+		N = int(binary.LittleEndian.Uint32(file[n-8:]))
+		v = int(binary.LittleEndian.Uint32(file[n-12:]))
+		for j := 1; j <= 8 && n-j-8 >= 0; j++ {
+			if int(binary.LittleEndian.Uint32(file[n-j-8:])) == N-j {
+				hit = j
+			}
+		}
+		return
+	}
+	judge := func(file []byte, k, r, salt, hit, N int) {
+		n := len(file)
+		res := event{"ev": "TruncSweep", "n": 12, "tail": true, "hit": hit, "rowgroups": k, "lastrows": r, "salt": salt, "size": n, "footer": N,
+			"naccepted": 0, "npanicked": 0, "accepted": []int{}, "panicked": []int{}, "detail": ""}
+		acc, pan := []int{}, []int{}
+		for l := n - 12; l < n; l++ {
+			p, accepted := tryPrefix(file, l)
+			if aborted != "" {
+				res["npanicked"] = res["npanicked"].(int) + 1
+				res["panicked"], res["accepted"], res["detail"] = append(pan, l), acc, aborted
+				emit(res)
+				out.WriteString(`{"ev":"Aborted","detail":"driver stopped after a runaway call"}` + "\n")
+				out.Flush()
+				os.Exit(0)
+			}
+			if p != "" {
+				pan = append(pan, l)
+				if res["detail"] == "" {
+					if len(p) > 300 {
+						p = p[:300]
+					}
+					res["detail"] = p
+				}
+				res["npanicked"] = res["npanicked"].(int) + 1
+			} else if accepted {
+				acc = append(acc, l)
+				res["naccepted"] = res["naccepted"].(int) + 1
+			}
+		}
+		res["accepted"], res["panicked"] = acc, pan
+		emit(res)
+	}
+	try := func(k, r, salt int) (N, v int, ok bool) {
+		var file []byte
+		if p := guardedFor(20*time.Second, func() { file = write(k, r, salt) }); p != "" || file == nil || len(file) < 24 {
+			return 0, 0, false
+		}
+		searched++
+		N, v, hit := tail(file)
+		if hit != 0 {
+			found++
+			judge(file, k, r, salt, hit, N)
+		}
+		return N, v, true
+	}
+search:
+	for k := 1; k <= 48; k++ {
+		for salt := 0; salt < 40; salt++ {
+			if found >= 3 || searched >= c.Bulk.Tail || time.Since(start) > 90*time.Second {
+				break search
+			}
+			// the tail value usually grows linearly with the rows of the last row group: aim at the r for which it meets the footer length
+			N1, v1, ok1 := try(k, 1, salt)
+			_, v2, ok2 := try(k, 2, salt)
+			if ok1 && ok2 && v2 > v1 {
+				r := 1 + (N1-4-v1)/(v2-v1)
+				for _, rr := range []int{r - 1, r, r + 1} {
+					if rr >= 3 && rr <= 4000 {
+						try(k, rr, salt)
+					}
+				}
+			}
+			try(k, 3+(k*7+salt*3)%60, salt) // and an undirected sample
+		}
+	}
+	emit(event{"ev": "TailSearch", "searched": searched, "found": found})
+}
+
+// tryPrefix hands file[:l] to the reader: the panic (if any), and whether the prefix was accepted (no constructor error, Error() nil
+// after Next returned false)
+func tryPrefix(file []byte, l int) (string, bool) {
+	var r *ParquetReader
+	var err error
+	p := guardedFor(20*time.Second, func() {
+		r, err = NewParquetReader(&source{data: file[:l]})
+		if err != nil {
+			return
+		}
+		n := 0
+		for r.Next() {
+			rec := new(Rec)
+			r.Scan(rec)
+			if n++; n > 1<<22 {
+				break
+			}
+		}
+		err = r.Error()
+	})
+	return p, p == "" && err == nil
 }
 
 // truncSweep: every strict prefix of file must be rejected (constructor error or Error() != nil), without panic.
@@ -1546,6 +1719,10 @@ func bulkAbstract(kids []node, i int, salt int) []interface{} {
 }
 
 func runBulk(c jobCase) {
+	if c.Bulk.Tail > 0 {
+		tailSearch(c)
+		return
+	}
 	ctx := buildCtx{poff: c.Poff}
 	snk := &sink{}
 	var w *ParquetWriter
